@@ -18,6 +18,7 @@ from vk.harness import obligation
 from vk.tensor import P
 
 from . import codes
+from .codes import Cfg
 
 F = "kaira/models/fec/encoders/"
 
@@ -185,3 +186,53 @@ def distance_all_messages(ctx, cfg):
     nonzero = S.lt(0, SP.weight(P(m)))
     w = SP.weight(P(c.value))
     ctx.ensure("weight_at_least_advertised", S.lor(S.lnot(nonzero), S.le(d_adv, w)), note=f"advertised d = {d_adv} ({src})")
+
+
+# ================================================================================================ parameter sequences (history)
+SEQUENCES = {
+    # the same generator polynomial at different lengths: a cyclic code is (n, g), not g - X^7+1 | X^14+1, and the longer code
+    # contains the weight-2 word X^7+1
+    # (k <= 12 throughout: for k > 12 minimum_distance() returns the weight of g, the recorded known finding of C03.parameters)
+    "cyclic_g1011": [Cfg("cyclic", 7, 0b1011, "left"), Cfg("cyclic", 14, 0b1011, "left"), Cfg("cyclic", 7, 0b1011, "right"), Cfg("cyclic", 14, 0b1011, "right")],
+    "cyclic_g1011_descending": [Cfg("cyclic", 14, 0b1011, "right"), Cfg("cyclic", 7, 0b1011, "left"), Cfg("cyclic", 14, 0b1011, "left")],
+    "cyclic_g111": [Cfg("cyclic", 3, 0b111, "left"), Cfg("cyclic", 6, 0b111, "left"), Cfg("cyclic", 9, 0b111, "left"), Cfg("cyclic", 3, 0b111, "left")],
+    "cyclic_h_and_g": [Cfg("cyclic_h", 7, 0b1011, "left"), Cfg("cyclic", 7, 0b1011, "left"), Cfg("cyclic_h", 15, 0b10011, "left"), Cfg("cyclic", 15, 0b10011, "left")],
+    "hamming": [Cfg("hamming", 2, False, "left"), Cfg("hamming", 2, True, "left"), Cfg("hamming", 3, True, "right"), Cfg("hamming", 3, False, "left"), Cfg("hamming", 4, True, "left"), Cfg("hamming", 4, False, "right"), Cfg("hamming", 2, True, "right")],
+    "bch": [Cfg("bch", 3, 3, "left"), Cfg("bch", 4, 3, "left"), Cfg("bch", 4, 5, "right"), Cfg("bch", 4, 7, "left"), Cfg("bch", 3, 3, "right"), Cfg("bch", 4, 5, "left")],
+    "rm": [Cfg("rm", 1, 3), Cfg("rm", 2, 3), Cfg("rm", 1, 4), Cfg("rm", 0, 3), Cfg("rm", 2, 4), Cfg("rm", 1, 3)],
+    "repetition_spc": [Cfg("repetition", 3), Cfg("spc", 3), Cfg("repetition", 5), Cfg("spc", 2), Cfg("repetition", 2), Cfg("spc", 4), Cfg("repetition", 3)],
+    "golay": [Cfg("golay", False, "left"), Cfg("golay", True, "left"), Cfg("golay", False, "right")],
+}
+
+
+@obligation(
+    "C03.parameter_sequences",
+    function=F + "cyclic_code.py:CyclicCodeEncoder.minimum_distance; " + F + "hamming_code.py:HammingCodeEncoder.minimum_distance; " + F + "bch_code.py:BCHCodeEncoder.minimum_distance; " + F + "golay_code.py:GolayCodeEncoder.minimum_distance; " + F + "base.py:BaseBlockCodeEncoder.code_rate",
+    configs=lambda tier: [Cfg("sequence", nm) for nm in SEQUENCES],
+    kind="ground",
+    engine="ground",
+)
+def parameter_sequences(cfg):
+    """several encoders of one family are built and asked for their parameters one after the other in ONE process: each must advertise
+    its OWN length, dimension and a distance that its own generator matrix attains (whatever an earlier instance computed or cached)"""
+    bad_len, bad_d, bad_exact, seen = [], [], [], []
+    for c in SEQUENCES[cfg[1]]:
+        enc, err = codes.try_build(c)
+        if enc is None:
+            yield "constructs", False, f"{c}: {err!r}"
+            return
+        G = SP.int_matrix(enc.generator_matrix)
+        k, n = len(G), len(G[0])
+        Gm = Gd.rows_to_masks(G)
+        if (enc.code_length, enc.code_dimension) != (n, Gd.rank(Gm)):
+            bad_len.append(f"{c}: advertises ({enc.code_length},{enc.code_dimension}), G is {k}x{n} of rank {Gd.rank(Gm)}")
+        d_adv, src = advertised_distance(enc, c)
+        d_true = Gd.min_distance(Gm, n)
+        seen.append(f"{c}: advertised {d_adv}, true {d_true}")
+        if d_adv is not None and d_true < d_adv:
+            bad_d.append(f"{c} (instance {len(seen)} of the sequence): advertised {d_adv} ({src}), true {d_true}")
+        if d_adv is not None and c.family in EXACT and d_true != d_adv:
+            bad_exact.append(f"{c}: documented exact {d_adv}, true {d_true}")
+    yield "every_instance_advertises_its_own_length_and_dimension", not bad_len, "; ".join(bad_len) or "; ".join(seen)
+    yield "every_instance_distance_at_least_advertised", not bad_d, "; ".join(bad_d) or "; ".join(seen)
+    yield "every_instance_documented_distance_exact", not bad_exact, "; ".join(bad_exact) or "-"
